@@ -59,7 +59,7 @@ func TestVerifDLEQ(t *testing.T) {
 		"dleq:altered-rejected:kb", "dleq:altered-rejected:dst", "dleq:altered-rejected:proof.c", "dleq:altered-rejected:proof.s",
 		"dleq:altered-rejected:batch-order", "dleq:altered-rejected:batch-length", "dleq:false-statement-rejected",
 		"dleq:degenerate-proof-rejected", "dleq:cross-group-tried", "dleq:noncanonical-scalar-tried", "dleq:identity-statement-tried",
-		"dleq:marshal-roundtrip")
+		"dleq:marshal-roundtrip", "dleq:batch-larger-than-256")
 	per := lib.Scale(16, 48)
 	type cs struct {
 		gi, i int
@@ -78,6 +78,10 @@ func TestVerifDLEQ(t *testing.T) {
 		prm := dleq.Params{G: g, H: lib.Pick(r, crypto.SHA256, crypto.SHA384, crypto.SHA512), DST: edgeBytes(r, lib.Pick(r, 0, 1, 16, 40))}
 		k := gr.randScalar(r)
 		n := 1 + c.i%5
+		if c.i == per-1 && c.gi%2 == 0 {
+			n = 258 + r.Intn(3) // a batch whose indices need the second octet of I2OSP(j, 2)
+			lib.Count("dleq:batch-larger-than-256")
+		}
 		var st dleqStmt
 		if r.Intn(3) == 0 {
 			st.a = g.Generator().Copy()
@@ -228,6 +232,9 @@ func TestVerifDLEQ(t *testing.T) {
 			}
 		}
 		for i := 0; i < n; i++ {
+			if n > 16 && i >= 3 && i < n-2 {
+				continue // large batches: the ends only
+			}
 			names, elts, _ := eltVariants(gr, r, st.bi[i], nfl)
 			for j := range elts {
 				x := st.clone()
@@ -253,6 +260,18 @@ func TestVerifDLEQ(t *testing.T) {
 				y := st.clone()
 				y.kbi[i], y.kbi[i+1] = y.kbi[i+1], y.kbi[i]
 				reject("kb", "kb-swapped-with-next", prm, y, p0, "")
+			}
+		}
+		// pairs 256 positions apart change places (their indices agree in the
+		// low octet)
+		if n > 257 {
+			for _, i := range []int{0, 1} {
+				if !st.bi[i].IsEqual(st.bi[i+256]) {
+					x := st.clone()
+					x.bi[i], x.bi[i+256] = x.bi[i+256], x.bi[i]
+					x.kbi[i], x.kbi[i+256] = x.kbi[i+256], x.kbi[i]
+					reject("batch-order", "pairs-256-apart-swapped", prm, x, p0, "")
+				}
 			}
 		}
 		if n > 1 {
